@@ -198,6 +198,10 @@ class StubWorker(wbase.Worker):
             boot = w.boot_fail_kind
         if sc.get("boot_delay"):
             seams.TIME.sleep(sc["boot_delay"])
+        if sc.get("boot_at_next_fork") and boot != "ok":
+            # fail at the very moment the master forks its next worker (bounded wait): the SIGCHLD then competes with the registration of that worker
+            n0 = len(w.forks)
+            facade.sim().block(lambda: len(w.forks) > n0, 1.0, False, False)
         if boot == "exit3":
             w.boot_failures.append((t.proc.pid, 3, facade.sim().now))
             raise RuntimeError("scripted boot failure")
